@@ -84,7 +84,8 @@ fn gen(rng: &mut Rng, idx: u64, tier: Tier) -> Case {
             if rng.chance(0.04) { lines.push((rng.range(1, 3_000_000), line, format!("{:?}:duplicate-delayed", kind).to_lowercase())); }
         }
     }
-    let ops = gen::ops_of(rng, lines, Chunking::Line);
+    let ch = if rng.chance(0.15) { Chunking::Pieces } else { Chunking::Line };
+    let ops = gen::ops_of(rng, lines, ch);
     let mut script = Script::file(args, ops);
     script.tcp = rng.chance(0.15);
     Case { property: "C11".into(), mode: if idx % 3 == 0 { "enumerated".into() } else { "random".into() }, script, args_b: None, log_level_b: None, meta: serde_json::Value::Null }
